@@ -509,6 +509,31 @@ def srun (disk : Bool) : Spec → List Op → Spec × List Out
     let (s'', os) := srun disk s' ops
     (s'', o :: os)
 
+/-! ### several table objects in one process
+
+Table objects are independent values: a call on one of two live tables is `step` on that one and
+leaves the other as it is (no shared session factory, engine or cache). -/
+
+inductive Side
+  | left | right
+  deriving DecidableEq, Repr
+
+def step2 (d1 d2 : Bool) (p : Table × Table) (s : Side) (op : Op) : (Table × Table) × Out :=
+  match s with
+  | .left => (((step d1 p.1 op).1, p.2), (step d1 p.1 op).2)
+  | .right => ((p.1, (step d2 p.2 op).1), (step d2 p.2 op).2)
+
+/-- an interleaved history over two live tables -/
+def run2 (d1 d2 : Bool) : Table × Table → List (Side × Op) → (Table × Table) × List (Side × Out)
+  | p, [] => (p, [])
+  | p, (s, op) :: rest =>
+    ((run2 d1 d2 (step2 d1 d2 p s op).1 rest).1,
+     (s, (step2 d1 d2 p s op).2) :: (run2 d1 d2 (step2 d1 d2 p s op).1 rest).2)
+
+/-- the calls (or outputs) of one side, in order -/
+def proj {α : Type} (s : Side) (h : List (Side × α)) : List α :=
+  h.filterMap (fun x => if x.1 = s then some x.2 else none)
+
 /-- the abstraction map: what `get_all()` shows (+ the tables that are stored as they are) -/
 def abs (t : Table) : Spec :=
   { rows := t.rows.map (res t.strings), emptyKnown := decide ([] ∈ t.strings)
